@@ -162,6 +162,13 @@ def expected(B, sort, q):
     faces = B.faces
     if name in ("clear", "clear_boundary_data"):
         return "exact", ["none"]
+    # arguments naming no element, for the accessors that index a container directly: the container's own exception
+    nf, ne = len(faces), len(B.edges)
+    absent = {"face_to_first_corner": (nf, "KeyError"), "face_to_corners": (nf, "IndexError"), "face_to_vertices": (nf, "IndexError"),
+              "face_to_edges": (nf, "IndexError"), "vertex_to_vertices": (B.nv, "KeyError"), "vertex_to_faces": (B.nv, "TypeError"),
+              "corner_to_face": (B.nc, "IndexError"), "edge_to_vertices": (ne, "IndexError"), "other_edge_end": (ne, "IndexError")}
+    if name in absent and a and a[0] >= absent[name][0]:
+        return "exact", ["err", absent[name][1]]
     if name == "vertex_to_corners":
         A = a[0]
         if not (0 <= A < B.nv):
@@ -329,4 +336,21 @@ def check_case(case, res):
         if not ok:
             return (k, "query %d %s answered %s; direct inspection of the face list gives %s%s"
                     % (k, q, o, want, {"set": " (as a set)", "rot": " (up to rotation)"}.get(mode, "")))
+    # alignment of the four rings of a vertex (one common rotation, not one per accessor)
+    for ring in res.get("rings", []):
+        if ring[0] == "err":
+            return (-2, "reading the four rings of a vertex after the script raised %s" % ring[1])
+        V, cs, vv, fs, es = ring
+        if not all(x[0] == "list" and None not in x[1] for x in (cs, vv, fs, es)):
+            return (-2, "rings of vertex %d are not lists of ids: %s" % (V, ring[1:]))
+        cs, vv, fs, es = cs[1], vv[1], fs[1], es[1]
+        if fs != [B.corner_fi(c)[0] for c in cs]:
+            return (-2, "vertex %d: vertex_to_faces %s is not the faces of vertex_to_corners %s in the same order" % (V, fs, cs))
+        if es != [B.eid(V, u) for u in vv]:
+            return (-2, "vertex %d: vertex_to_edges %s is not the edges towards vertex_to_vertices %s in the same order" % (V, es, vv))
+        if case["sort"]:
+            tg = [B.c_he(c)[1] for c in cs]
+            if (vv[-len(tg):] if tg else []) != tg or len(vv) - len(tg) not in (0, 1):
+                return (-2, "vertex %d: vertex_to_vertices %s is not aligned with the half-edge targets %s of vertex_to_corners %s"
+                        % (V, vv, tg, cs))
     return None
